@@ -49,6 +49,7 @@ package log
 //@   nopanic[C08]
 //@   ensures[C08:full] len(fl) <= W ==> result == fl
 //@   ensures[C08:truncated] len(fl) > W ==> result == "..." + fl[len(fl) - max(W - 3, 0):]
+//@   ensures[C07,C08:file-line] result == fileLineOf(c, e)
 //@   replay W = c.FileLineLength; file = e.File; line = e.Line
 
 // ---- C01 / C10 / C11: levels, entry points, record ------------------------------------------------
@@ -821,6 +822,7 @@ package log
 //@   requires jsonOK(enc) && value_legal(stk[enc])
 //@   modifies enc.last, enc.buf.out
 //@   ghost stk[enc] = stk_push(old(stk[enc]), 1)
+//@   ghost tok[enc] = tsnoc(old(tok[enc]), 27, 0, 0, 0, "")
 //@   ensures[C07:rep] json_rep(enc.last, stk[enc]) && stk_ok(stk[enc])
 //@   ensures[C07:token] enc.buf.out == bsnoc(old(preV(enc)), 123)
 
@@ -828,6 +830,7 @@ package log
 //@   requires jsonOK(enc) && end_obj_legal(stk[enc])
 //@   modifies enc.last, enc.buf.out
 //@   ghost stk[enc] = stk_pop(old(stk[enc]))
+//@   ghost tok[enc] = tsnoc(old(tok[enc]), 28, 0, 0, 0, "")
 //@   ensures[C07:rep] json_rep(enc.last, stk[enc]) && stk_ok(stk[enc])
 //@   ensures[C07:token] enc.buf.out == bsnoc(old(enc.buf.out), 125)
 
@@ -835,6 +838,7 @@ package log
 //@   requires jsonOK(enc) && value_legal(stk[enc])
 //@   modifies enc.last, enc.buf.out
 //@   ghost stk[enc] = stk_push(old(stk[enc]), 2)
+//@   ghost tok[enc] = tsnoc(old(tok[enc]), 29, 0, 0, 0, "")
 //@   ensures[C07:rep] json_rep(enc.last, stk[enc]) && stk_ok(stk[enc])
 //@   ensures[C07:token] enc.buf.out == bsnoc(old(preV(enc)), 91)
 
@@ -842,6 +846,7 @@ package log
 //@   requires jsonOK(enc) && end_arr_legal(stk[enc])
 //@   modifies enc.last, enc.buf.out
 //@   ghost stk[enc] = stk_pop(old(stk[enc]))
+//@   ghost tok[enc] = tsnoc(old(tok[enc]), 30, 0, 0, 0, "")
 //@   ensures[C07:rep] json_rep(enc.last, stk[enc]) && stk_ok(stk[enc])
 //@   ensures[C07:token] enc.buf.out == bsnoc(old(enc.buf.out), 93)
 
@@ -849,6 +854,7 @@ package log
 //@   requires jsonOK(enc) && value_legal(stk[enc])
 //@   modifies enc.last, enc.buf.out
 //@   ghost stk[enc] = stk_push(old(stk[enc]), 1)
+//@   ghost tok[enc] = tsnoc(old(tok[enc]), 27, 0, 0, 0, "")
 //@   ensures[C07:rep] json_rep(enc.last, stk[enc]) && stk_ok(stk[enc])
 //@   ensures[C07:token] enc.buf.out == bsnoc(old(preV(enc)), 123)
 
@@ -856,6 +862,7 @@ package log
 //@   requires jsonOK(enc) && end_obj_legal(stk[enc])
 //@   modifies enc.last, enc.buf.out
 //@   ghost stk[enc] = stk_pop(old(stk[enc]))
+//@   ghost tok[enc] = tsnoc(old(tok[enc]), 28, 0, 0, 0, "")
 //@   ensures[C07:rep] json_rep(enc.last, stk[enc]) && stk_ok(stk[enc])
 //@   ensures[C07:token] enc.buf.out == bsnoc(old(enc.buf.out), 125)
 
@@ -863,6 +870,7 @@ package log
 //@   requires jsonOK(enc) && key_legal(stk[enc])
 //@   modifies enc.last, enc.buf.out
 //@   ghost stk[enc] = stk_key(old(stk[enc]))
+//@   ghost tok[enc] = tsnoc(old(tok[enc]), 20, 0, 0, 0, key)
 //@   ensures[C07:rep] json_rep(enc.last, stk[enc]) && stk_ok(stk[enc])
 //@   ensures[C07:token] enc.buf.out == bsnoc(bsnoc(binit(binit(enc.buf.out)), 34), 58) && Ext(bsnoc(old(preK(enc)), 34), binit(binit(enc.buf.out)), RP(key, len(key)))
 
@@ -870,6 +878,7 @@ package log
 //@   requires jsonOK(enc) && value_legal(stk[enc])
 //@   modifies enc.last, enc.buf.out
 //@   ghost stk[enc] = stk_child_done(old(stk[enc]))
+//@   ghost tok[enc] = tsnoc(old(tok[enc]), 21, 0, (v ? 1 : 0), 0, "")
 //@   ensures[C07:rep] json_rep(enc.last, stk[enc]) && stk_ok(stk[enc])
 //@   ensures[C07:token] enc.buf.out == bapp(old(preV(enc)), fmt_bool(v))
 
@@ -877,6 +886,7 @@ package log
 //@   requires jsonOK(enc) && value_legal(stk[enc])
 //@   modifies enc.last, enc.buf.out
 //@   ghost stk[enc] = stk_child_done(old(stk[enc]))
+//@   ghost tok[enc] = tsnoc(old(tok[enc]), 22, 0, v, 0, "")
 //@   ensures[C07:rep] json_rep(enc.last, stk[enc]) && stk_ok(stk[enc])
 //@   ensures[C07:token] enc.buf.out == bapp(old(preV(enc)), fmt_int(v, 10))
 
@@ -884,6 +894,7 @@ package log
 //@   requires jsonOK(enc) && value_legal(stk[enc])
 //@   modifies enc.last, enc.buf.out
 //@   ghost stk[enc] = stk_child_done(old(stk[enc]))
+//@   ghost tok[enc] = tsnoc(old(tok[enc]), 23, 0, u, 0, "")
 //@   ensures[C07:rep] json_rep(enc.last, stk[enc]) && stk_ok(stk[enc])
 //@   ensures[C07:token] enc.buf.out == bapp(old(preV(enc)), fmt_uint(u, 10))
 
@@ -891,6 +902,7 @@ package log
 //@   requires jsonOK(enc) && value_legal(stk[enc])
 //@   modifies enc.last, enc.buf.out
 //@   ghost stk[enc] = stk_child_done(old(stk[enc]))
+//@   ghost tok[enc] = tsnoc(old(tok[enc]), 24, 0, v, 0, "")
 //@   ensures[C07:rep] json_rep(enc.last, stk[enc]) && stk_ok(stk[enc])
 //@   ensures[C07:finite-number] float_finite(v) ==> enc.buf.out == bapp(old(preV(enc)), fmt_float(v))
 //@   ensures[C07:non-finite-as-string] !float_finite(v) ==> enc.buf.out == bsnoc(bapp(bsnoc(old(preV(enc)), 34), fmt_float(v)), 34)
@@ -900,6 +912,7 @@ package log
 //@   requires jsonOK(enc) && value_legal(stk[enc])
 //@   modifies enc.last, enc.buf.out
 //@   ghost stk[enc] = stk_child_done(old(stk[enc]))
+//@   ghost tok[enc] = tsnoc(old(tok[enc]), 25, 0, 0, 0, v)
 //@   ensures[C07:rep] json_rep(enc.last, stk[enc]) && stk_ok(stk[enc])
 //@   ensures[C07:token] enc.buf.out == bsnoc(binit(enc.buf.out), 34) && Ext(bsnoc(old(preV(enc)), 34), binit(enc.buf.out), RP(v, len(v)))
 
@@ -908,6 +921,7 @@ package log
 //@   requires jsonOK(enc) && value_legal(stk[enc])
 //@   modifies enc.last, enc.buf.out, lastMarshal, lastMarshalErr
 //@   ghost stk[enc] = stk_child_done(old(stk[enc]))
+//@   ghost tok[enc] = tsnoc(old(tok[enc]), 26, 0, ifval(v), iftag(v), "")
 //@   ensures[C07:rep] json_rep(enc.last, stk[enc]) && stk_ok(stk[enc])
 //@   ensures[C07:marshalled] lastMarshalErr == nil ==> enc.buf.out == bapp(old(preV(enc)), content(lastMarshal))
 //@   ensures[C07:unmarshallable-as-string] lastMarshalErr != nil ==> enc.buf.out == bsnoc(binit(enc.buf.out), 34) && Ext(bsnoc(old(preV(enc)), 34), binit(enc.buf.out), RP(error.Error(lastMarshalErr), len(error.Error(lastMarshalErr))))
@@ -930,75 +944,86 @@ package log
 //@   requires value_legal(stk[enc])
 //@   modifies nothing
 //@   ghost stk[enc] = stk_push(old(stk[enc]), 1)
+//@   ghost tok[enc] = tsnoc(old(tok[enc]), 27, 0, 0, 0, "")
 //@ func (*TextEncoder).AppendEncoderEnd
 //@   requires end_obj_legal(stk[enc])
 //@   modifies nothing
 //@   ghost stk[enc] = stk_pop(old(stk[enc]))
+//@   ghost tok[enc] = tsnoc(old(tok[enc]), 28, 0, 0, 0, "")
 
 //@ func (*TextEncoder).AppendObjectBegin
 //@   requires textOK(enc) && enc.jsonDepth < 127 && value_legal(stk[enc.jsonEncoder])
-//@   modifies enc.jsonDepth, enc.jsonEncoder.last, enc.buf.out
+//@   modifies enc.jsonDepth, enc.jsonEncoder.last, enc.buf.out, tok[enc.jsonEncoder]
 //@   ghost stk[enc.jsonEncoder] = stk_push(old(stk[enc.jsonEncoder]), 1)
+//@   ghost tok[enc] = tsnoc(old(tok[enc]), 27, 0, 0, 0, "")
 //@   ensures[C08:depth-bookkeeping] textOK(enc) && enc.jsonDepth == old(enc.jsonDepth) + 1
 //@   ensures[C08:same-token-as-json] enc.buf.out == bsnoc(old(preV(enc.jsonEncoder)), 123)
 
 //@ func (*TextEncoder).AppendObjectEnd
 //@   requires textOK(enc) && end_obj_legal(stk[enc.jsonEncoder])
-//@   modifies enc.jsonDepth, enc.jsonEncoder.last, enc.buf.out
+//@   modifies enc.jsonDepth, enc.jsonEncoder.last, enc.buf.out, tok[enc.jsonEncoder]
 //@   ghost stk[enc.jsonEncoder] = old(enc.jsonDepth) == 1 ? stk0 : stk_pop(old(stk[enc.jsonEncoder]))
+//@   ghost tok[enc] = tsnoc(old(tok[enc]), 28, 0, 0, 0, "")
 //@   ensures[C08:depth-bookkeeping] textOK(enc) && enc.jsonDepth == old(enc.jsonDepth) - 1
 //@   ensures[C08:same-token-as-json] enc.buf.out == bsnoc(old(enc.buf.out), 125)
 
 //@ func (*TextEncoder).AppendArrayBegin
 //@   requires textOK(enc) && enc.jsonDepth < 127 && value_legal(stk[enc.jsonEncoder])
-//@   modifies enc.jsonDepth, enc.jsonEncoder.last, enc.buf.out
+//@   modifies enc.jsonDepth, enc.jsonEncoder.last, enc.buf.out, tok[enc.jsonEncoder]
 //@   ghost stk[enc.jsonEncoder] = stk_push(old(stk[enc.jsonEncoder]), 2)
+//@   ghost tok[enc] = tsnoc(old(tok[enc]), 29, 0, 0, 0, "")
 //@   ensures[C08:depth-bookkeeping] textOK(enc) && enc.jsonDepth == old(enc.jsonDepth) + 1
 //@   ensures[C08:same-token-as-json] enc.buf.out == bsnoc(old(preV(enc.jsonEncoder)), 91)
 
 //@ func (*TextEncoder).AppendArrayEnd
 //@   requires textOK(enc) && end_arr_legal(stk[enc.jsonEncoder])
-//@   modifies enc.jsonDepth, enc.jsonEncoder.last, enc.buf.out
+//@   modifies enc.jsonDepth, enc.jsonEncoder.last, enc.buf.out, tok[enc.jsonEncoder]
 //@   ghost stk[enc.jsonEncoder] = old(enc.jsonDepth) == 1 ? stk0 : stk_pop(old(stk[enc.jsonEncoder]))
+//@   ghost tok[enc] = tsnoc(old(tok[enc]), 30, 0, 0, 0, "")
 //@   ensures[C08:depth-bookkeeping] textOK(enc) && enc.jsonDepth == old(enc.jsonDepth) - 1
 //@   ensures[C08:same-token-as-json] enc.buf.out == bsnoc(old(enc.buf.out), 93)
 
 //@ func (*TextEncoder).AppendKey
 //@   requires textOK(enc) && (enc.jsonDepth > 0 ==> key_legal(stk[enc.jsonEncoder]))
-//@   modifies enc.hasWritten, enc.jsonEncoder.last, enc.buf.out
+//@   modifies enc.hasWritten, enc.jsonEncoder.last, enc.buf.out, tok[enc.jsonEncoder]
 //@   ghost stk[enc.jsonEncoder] = old(enc.jsonDepth) > 0 ? stk_key(old(stk[enc.jsonEncoder])) : old(stk[enc.jsonEncoder])
+//@   ghost tok[enc] = tsnoc(old(tok[enc]), 20, 0, 0, 0, key)
 //@   ensures[C08:depth-bookkeeping] textOK(enc) && enc.jsonDepth == old(enc.jsonDepth)
 //@   ensures[C08:nested-key-as-json] old(enc.jsonDepth) > 0 ==> enc.hasWritten == old(enc.hasWritten) && enc.buf.out == bsnoc(bsnoc(binit(binit(enc.buf.out)), 34), 58) && Ext(bsnoc(old(preK(enc.jsonEncoder)), 34), binit(binit(enc.buf.out)), RP(key, len(key)))
 //@   ensures[C08:top-level-key] old(enc.jsonDepth) == 0 ==> enc.hasWritten && enc.buf.out == bsnoc(binit(enc.buf.out), 61) && Ext(old(enc.hasWritten) ? bapp(old(enc.buf.out), enc.separator) : old(enc.buf.out), binit(enc.buf.out), RP(key, len(key)))
 
 //@ func (*TextEncoder).AppendBool
 //@   requires textOK(enc) && (enc.jsonDepth > 0 ==> value_legal(stk[enc.jsonEncoder]))
-//@   modifies enc.jsonEncoder.last, enc.buf.out
+//@   modifies enc.jsonEncoder.last, enc.buf.out, tok[enc.jsonEncoder]
 //@   ghost stk[enc.jsonEncoder] = old(enc.jsonDepth) > 0 ? stk_child_done(old(stk[enc.jsonEncoder])) : old(stk[enc.jsonEncoder])
+//@   ghost tok[enc] = tsnoc(old(tok[enc]), 21, 0, (v ? 1 : 0), 0, "")
 //@   ensures[C08:depth-bookkeeping] textOK(enc) && enc.jsonDepth == old(enc.jsonDepth)
 //@   ensures[C08:nested-as-json] old(enc.jsonDepth) > 0 ==> enc.buf.out == bapp(old(preV(enc.jsonEncoder)), fmt_bool(v))
 //@   ensures[C08:top-level-same-token] old(enc.jsonDepth) == 0 ==> enc.buf.out == bapp(old(enc.buf.out), fmt_bool(v))
 
 //@ func (*TextEncoder).AppendInt64
 //@   requires textOK(enc) && (enc.jsonDepth > 0 ==> value_legal(stk[enc.jsonEncoder]))
-//@   modifies enc.jsonEncoder.last, enc.buf.out
+//@   modifies enc.jsonEncoder.last, enc.buf.out, tok[enc.jsonEncoder]
 //@   ghost stk[enc.jsonEncoder] = old(enc.jsonDepth) > 0 ? stk_child_done(old(stk[enc.jsonEncoder])) : old(stk[enc.jsonEncoder])
+//@   ghost tok[enc] = tsnoc(old(tok[enc]), 22, 0, v, 0, "")
 //@   ensures[C08:depth-bookkeeping] textOK(enc) && enc.jsonDepth == old(enc.jsonDepth)
 //@   ensures[C08:nested-as-json] old(enc.jsonDepth) > 0 ==> enc.buf.out == bapp(old(preV(enc.jsonEncoder)), fmt_int(v, 10))
 //@   ensures[C08:top-level-same-token] old(enc.jsonDepth) == 0 ==> enc.buf.out == bapp(old(enc.buf.out), fmt_int(v, 10))
 
 //@ func (*TextEncoder).AppendUint64
 //@   requires textOK(enc) && (enc.jsonDepth > 0 ==> value_legal(stk[enc.jsonEncoder]))
-//@   modifies enc.jsonEncoder.last, enc.buf.out
+//@   modifies enc.jsonEncoder.last, enc.buf.out, tok[enc.jsonEncoder]
 //@   ghost stk[enc.jsonEncoder] = old(enc.jsonDepth) > 0 ? stk_child_done(old(stk[enc.jsonEncoder])) : old(stk[enc.jsonEncoder])
+//@   ghost tok[enc] = tsnoc(old(tok[enc]), 23, 0, v, 0, "")
 //@   ensures[C08:depth-bookkeeping] textOK(enc) && enc.jsonDepth == old(enc.jsonDepth)
 //@   ensures[C08:nested-as-json] old(enc.jsonDepth) > 0 ==> enc.buf.out == bapp(old(preV(enc.jsonEncoder)), fmt_uint(v, 10))
 //@   ensures[C08:top-level-same-token] old(enc.jsonDepth) == 0 ==> enc.buf.out == bapp(old(enc.buf.out), fmt_uint(v, 10))
 
 //@ func (*TextEncoder).AppendFloat64
 //@   requires textOK(enc) && (enc.jsonDepth > 0 ==> value_legal(stk[enc.jsonEncoder]))
-//@   modifies enc.jsonEncoder.last, enc.buf.out
+//@   modifies enc.jsonEncoder.last, enc.buf.out, tok[enc.jsonEncoder]
 //@   ghost stk[enc.jsonEncoder] = old(enc.jsonDepth) > 0 ? stk_child_done(old(stk[enc.jsonEncoder])) : old(stk[enc.jsonEncoder])
+//@   ghost tok[enc] = tsnoc(old(tok[enc]), 24, 0, v, 0, "")
 //@   ensures[C08:depth-bookkeeping] textOK(enc) && enc.jsonDepth == old(enc.jsonDepth)
 //@   ensures[C08:nested-as-json] old(enc.jsonDepth) > 0 && float_finite(v) ==> enc.buf.out == bapp(old(preV(enc.jsonEncoder)), fmt_float(v))
 //@   ensures[C08:nested-non-finite-as-json] old(enc.jsonDepth) > 0 && !float_finite(v) ==> enc.buf.out == bsnoc(bapp(bsnoc(old(preV(enc.jsonEncoder)), 34), fmt_float(v)), 34)
@@ -1006,16 +1031,18 @@ package log
 
 //@ func (*TextEncoder).AppendString
 //@   requires textOK(enc) && (enc.jsonDepth > 0 ==> value_legal(stk[enc.jsonEncoder]))
-//@   modifies enc.jsonEncoder.last, enc.buf.out
+//@   modifies enc.jsonEncoder.last, enc.buf.out, tok[enc.jsonEncoder]
 //@   ghost stk[enc.jsonEncoder] = old(enc.jsonDepth) > 0 ? stk_child_done(old(stk[enc.jsonEncoder])) : old(stk[enc.jsonEncoder])
+//@   ghost tok[enc] = tsnoc(old(tok[enc]), 25, 0, 0, 0, v)
 //@   ensures[C08:depth-bookkeeping] textOK(enc) && enc.jsonDepth == old(enc.jsonDepth)
 //@   ensures[C08:nested-as-json] old(enc.jsonDepth) > 0 ==> enc.buf.out == bsnoc(binit(enc.buf.out), 34) && Ext(bsnoc(old(preV(enc.jsonEncoder)), 34), binit(enc.buf.out), RP(v, len(v)))
 //@   ensures[C08:top-level-escaped-unquoted] old(enc.jsonDepth) == 0 ==> Ext(old(enc.buf.out), enc.buf.out, RP(v, len(v)))
 
 //@ func (*TextEncoder).AppendReflect
 //@   requires textOK(enc) && (enc.jsonDepth > 0 ==> value_legal(stk[enc.jsonEncoder]))
-//@   modifies enc.jsonEncoder.last, enc.buf.out, lastMarshal, lastMarshalErr
+//@   modifies enc.jsonEncoder.last, enc.buf.out, lastMarshal, lastMarshalErr, tok[enc.jsonEncoder]
 //@   ghost stk[enc.jsonEncoder] = old(enc.jsonDepth) > 0 ? stk_child_done(old(stk[enc.jsonEncoder])) : old(stk[enc.jsonEncoder])
+//@   ghost tok[enc] = tsnoc(old(tok[enc]), 26, 0, ifval(v), iftag(v), "")
 //@   ensures[C08:depth-bookkeeping] textOK(enc) && enc.jsonDepth == old(enc.jsonDepth)
 //@   ensures[C08:top-level-marshalled] old(enc.jsonDepth) == 0 && lastMarshalErr == nil ==> enc.buf.out == bapp(old(enc.buf.out), content(lastMarshal))
 //@   ensures[C08:top-level-error-text-escaped] old(enc.jsonDepth) == 0 && lastMarshalErr != nil ==> Ext(old(enc.buf.out), enc.buf.out, RP(error.Error(lastMarshalErr), len(error.Error(lastMarshalErr))))
@@ -1154,7 +1181,7 @@ package log
 
 //@ func (Field).Encode
 //@   requires enc != nil && key_legal(stk[ifval(enc)]) && stk_ok(stk[ifval(enc)]) && fieldWF(f)
-//@   requires f.Type == 7 ==> fieldsWF(as(f.Any, []Field))
+//@   requires f.Type == 7 ==> wf_fields(as(f.Any, []Field))
 //@   modifies stk[ifval(enc)], tok[ifval(enc)], encState[ifval(enc)], encBuf[ifval(enc)].out, elems(string), all(JSONEncoder.last), all(TextEncoder.jsonDepth), all(TextEncoder.hasWritten)
 //@   maintains[C07:encoder-invariant-kept] encRep(enc)
 //@   ensures[C07,C08:append-only] bprefix(old(encBuf[ifval(enc)].out), encBuf[ifval(enc)].out)
@@ -1172,8 +1199,17 @@ package log
 //@   loop 1 invariant[C07:map-rep] encRep(enc)
 //@   loop 1 invariant[C07:map-members] key_legal(stk[ifval(enc)]) && stk_ok(stk[ifval(enc)]) && sameFrame(stk[ifval(enc)], old(stk[ifval(enc)]))
 
-// (recursive: the fields of a nested object are well-formed too)
-//@ spec rec fun fieldsWF(fs []Field) bool = forall k int :: 0 <= k && k < len(fs) ==> fieldWF(fs[k]) && (fs[k].Type == 7 ==> fieldsWF(as(fs[k].Any, []Field)))
+// a well-formed field list: every payload agrees with its type tag, recursively for nested objects.
+// wf_fields is abstract and heap-independent (field lists handed to the library are not modified while
+// it runs); its meaning on the heap at function entry is given by this axiom
+//@ axiom forall fs []Field :: { wf_fields(fs) } wf_fields(fs) ==> (forall k int :: 0 <= k && k < len(fs) ==> fieldWF(fs[k]) && (fs[k].Type == 7 ==> wf_fields(as(fs[k].Any, []Field))))
+// a list of plain string fields (the JSON header) is well-formed without recursion
+//@ spec fun flatStrings(fs []Field) bool = forall k int :: 0 <= k && k < len(fs) ==> fs[k].Type == 4 && dyn(fs[k].Any, *byte)
+//@ spec fun fieldsWF(fs []Field) bool = wf_fields(fs) || flatStrings(fs)
+
+// tokens of a list of string fields (used for the JSON header)
+//@ spec rec fun strToks(fs []Field, k int, base Trace) Trace = k <= 0 ? base : tsnoc(tsnoc(strToks(fs, k-1, base), 20, 0, 0, 0, fs[k-1].Key), 25, 0, 0, 0, str_of(as(fs[k-1].Any, *byte), fs[k-1].Num))
+//@ spec fun allStrings(fs []Field) bool = forall k int :: 0 <= k && k < len(fs) ==> fs[k].Type == 4
 
 //@ func EncodeFields
 //@   requires enc != nil && key_legal(stk[ifval(enc)]) && stk_ok(stk[ifval(enc)]) && fieldsWF(fields)
@@ -1182,7 +1218,9 @@ package log
 //@   ensures[C07,C08:append-only] bprefix(old(encBuf[ifval(enc)].out), encBuf[ifval(enc)].out)
 //@   ensures[C07:tokens-append-only] tprefix(old(tok[ifval(enc)]), tok[ifval(enc)])
 //@   ensures[C07,C08:member-position-kept] key_legal(stk[ifval(enc)]) && stk_ok(stk[ifval(enc)]) && sameFrame(stk[ifval(enc)], old(stk[ifval(enc)]))
+//@   ensures[C07:string-members-in-order] allStrings(fields) ==> tok[ifval(enc)] == strToks(fields, len(fields), old(tok[ifval(enc)]))
 //@   loop 1 invariant[C07:range] 0 <= $k && $k <= len(fields)
+//@   loop 1 invariant[C07:string-tokens] allStrings(fields) ==> tok[ifval(enc)] == strToks(fields, $k, old(tok[ifval(enc)]))
 //@   loop 1 invariant[C07:append-only] bprefix(old(encBuf[ifval(enc)].out), encBuf[ifval(enc)].out) && tprefix(old(tok[ifval(enc)]), tok[ifval(enc)])
 //@   loop 1 invariant[C07:rep] encRep(enc)
 //@   loop 1 invariant[C07:members] key_legal(stk[ifval(enc)]) && stk_ok(stk[ifval(enc)]) && sameFrame(stk[ifval(enc)], old(stk[ifval(enc)]))
@@ -1347,3 +1385,31 @@ package log
 //@   modifies nothing
 //@   ensures[C07:msg] result.Key == "msg" && result.Type == 4 && dyn(result.Any, *byte) && str_of(as(result.Any, *byte), result.Num) == msg
 
+
+// ---- C03 / C07 / C08: the layouts ---------------------------------------------------------------------------
+
+//@ func (Level).Name
+//@   modifies nothing
+//@   ensures[C07,C08:level-name] result == l.name
+
+//@ spec fun flFull(e *Event) string = e.File + ":" + itoa(e.Line)
+//@ spec fun fileLineOf(c *BaseLayout, e *Event) string = len(flFull(e)) <= c.FileLineLength ? flFull(e) : "..." + flFull(e)[len(flFull(e)) - max(c.FileLineLength - 3, 0):]
+//@ spec fun textHeader(c *TextLayout, e *Event) Bytes = bapp(bapp(bapp(bapp(bapp(bapp(bapp(bapp(bapp(bnil, "["), str_upper(e.Level.name)), "]["), time_fmt(e.Time, "2006-01-02T15:04:05.000")), "]["), fileLineOf(c.BaseLayout, e)), "] "), e.Tag), "||")
+//@ spec fun textPrefix(c *TextLayout, e *Event) Bytes = e.CtxString == "" ? textHeader(c, e) : bapp(bapp(textHeader(c, e), e.CtxString), "||")
+
+//@ func (*TextLayout).ToBytes
+//@   requires c != nil && e != nil && wf_fields(e.CtxFields) && wf_fields(e.Fields)
+//@   modifies pooled, out, stk, tok, encState, encBuf, lastEnc, elems(string), all(JSONEncoder.last), all(TextEncoder.jsonDepth), all(TextEncoder.hasWritten), lastMarshal, lastMarshalErr
+//@   ensures[C03:line-owned-by-the-caller] bufOf(sref(result)) == 0 || !pooled[bufOf(sref(result))]
+//@   ensures[C08:header-then-fields-then-one-newline] exists L Bytes :: content(result) == bstr(L) && L == bsnoc(binit(L), 10) && bprefix(old(textPrefix(c, e)), binit(L))
+
+// tokens of the JSON header: level, time, fileLine, tag and the optional ctxString, in this order
+//@ spec fun jsonHeaderToks(c *JSONLayout, e *Event) Trace = tsnoc(tsnoc(tsnoc(tsnoc(tsnoc(tsnoc(tsnoc(tsnoc(tsnoc(tnil, 27, 0, 0, 0, ""), 20, 0, 0, 0, "level"), 25, 0, 0, 0, str_lower(e.Level.name)), 20, 0, 0, 0, "time"), 25, 0, 0, 0, time_fmt(e.Time, "2006-01-02T15:04:05.000")), 20, 0, 0, 0, "fileLine"), 25, 0, 0, 0, fileLineOf(c.BaseLayout, e)), 20, 0, 0, 0, "tag"), 25, 0, 0, 0, e.Tag)
+//@ spec fun jsonHeaderToksCtx(c *JSONLayout, e *Event) Trace = e.CtxString == "" ? jsonHeaderToks(c, e) : tsnoc(tsnoc(jsonHeaderToks(c, e), 20, 0, 0, 0, "ctxString"), 25, 0, 0, 0, e.CtxString)
+
+//@ func (*JSONLayout).ToBytes
+//@   requires c != nil && e != nil && wf_fields(e.CtxFields) && wf_fields(e.Fields)
+//@   modifies pooled, out, stk, tok, encState, encBuf, lastEnc, elems(string), elems(Field), all(JSONEncoder.last), all(TextEncoder.jsonDepth), all(TextEncoder.hasWritten), lastMarshal, lastMarshalErr
+//@   ensures[C03:line-owned-by-the-caller] bufOf(sref(result)) == 0 || !pooled[bufOf(sref(result))]
+//@   ensures[C07:one-object-one-newline] exists L Bytes :: content(result) == bstr(L) && L == bsnoc(bsnoc(binit(binit(L)), 125), 10) && bprefix(bsnoc(bnil, 123), binit(binit(L)))
+//@   ensures[C07:member-order] tprefix(old(jsonHeaderToksCtx(c, e)), tok[lastEnc]) && tkind(tok[lastEnc]) == 28 && stk[lastEnc] == stk_child_done(stk0)
